@@ -93,7 +93,10 @@ def decodeFiles (a b c d e f : String) : Option (List Req.Multipart.File) := do
 def laneMpWrite : List String → String
   | [b, flds, a1, a2, a3, a4, a5, a6] =>
     match decodeHex b, (decodeList flds).bind mkPairs, decodeFiles a1 a2 a3 a4 a5 a6 with
-    | some b, some flds, some files => encodeHex (Req.Multipart.write b flds files)
+    | some b, some flds, some files =>
+      match Req.Multipart.writeChecked b flds files with
+      | .ok body => encodeHex body
+      | .error _ => "err"
     | _, _, _ => "bad-op"
   | _ => "bad-op"
 
@@ -120,10 +123,13 @@ def laneMpE2E : List String → String
   | [b, flds, a1, a2, a3, a4, a5, a6] =>
     match decodeHex b, (decodeList flds).bind mkPairs, decodeFiles a1 a2 a3 a4 a5 a6 with
     | some b, some flds, some files =>
-      match Req.Multipart.serverForm b (Req.Multipart.write b flds files) with
-      | .ok items => showItems items
-      | .error .unsupported => "unsupported"
-      | .error _ => "reject"
+      match Req.Multipart.writeChecked b flds files with
+      | .error _ => "err"
+      | .ok body =>
+        match Req.Multipart.serverForm b body with
+        | .ok items => showItems items
+        | .error .unsupported => "unsupported"
+        | .error _ => "reject"
     | _, _, _ => "bad-op"
   | _ => "bad-op"
 
